@@ -56,8 +56,19 @@ func repoDir() string {
 	return "/repo"
 }
 
+// theProg is the program of this process (one configuration per process).
+var theProg *Prog
+
 // Load loads the six library packages for the configuration.
 func Load(cfg Config) (*Prog, error) {
+	p, err := load(cfg)
+	if err == nil {
+		theProg = p
+	}
+	return p, err
+}
+
+func load(cfg Config) (*Prog, error) {
 	repo := repoDir()
 	env := append(os.Environ(),
 		"GOFLAGS=-mod=mod", "GOPROXY=off", "GOSUMDB=off", "GOTOOLCHAIN=local", "GOWORK=off",
